@@ -153,3 +153,17 @@ func dbgNext(c *Ctx, r *Report) {
 	show("final", m.Final)
 	r.ok("dbg", "x", "")
 }
+
+func init() { register("DBGLEX", "other", dbgLex) }
+
+func dbgLex(c *Ctx, r *Report) {
+	sf := c.stateFuncs()
+	for _, name := range sortedKeys(sf) {
+		m := c.lexStateModel(sf[name])
+		fmt.Printf("== %s: %d paths, undecided %v\n", name, len(m.Paths), m.Undecided)
+		for _, p := range m.Paths {
+			fmt.Printf("   %s -> %s\n", strings.Join(p.Log, " "), p.Ret)
+		}
+	}
+	r.ok("dbg", "x", "")
+}
